@@ -204,12 +204,17 @@ class _Lock:
 class _Ctl:
     def __init__(self, fname):
         self.fname = fname
-        self.sem = [threading.Semaphore(0), threading.Semaphore(0)]
-        self.main = threading.Semaphore(0)
+        # binary hand-off signals (raw locks: one release per acquire, strictly alternating)
+        self.sem = [threading.Lock(), threading.Lock()]
+        self.main = threading.Lock()
+        for x in self.sem + [self.main]:
+            x.acquire()
         self.status = ['ready', 'ready']
         self.where = ['start', 'start']
         self.tids = {}
         self.blocked_on_lock = 0
+        self.depth = [0, 0]
+        self.ret_snap = [None, None]
         self.lock = _Lock(self)
 
     def current(self):
@@ -228,10 +233,21 @@ class _Ctl:
             if event == 'line':
                 self.where[me] = '%s:%d' % (frame.f_code.co_name, frame.f_lineno)
                 self.pause(me, 'ready')
+            elif event == 'return':
+                self.depth[me] -= 1
+                if self.depth[me] == 0 and arg is not None:
+                    # the value of the read AT THE MOMENT the operation returns it (its lock is released); compared
+                    # with what the caller holds once it runs again: they differ iff a VIEW of the buffer was returned
+                    self.ret_snap[me] = ['ok', _canon(arg)]
+                # between the callee's last line (its `with` block already left) and the rest of the caller's
+                # statement: the switch point between two PARTS of one statement in the model
+                self.where[me] = '%s:ret' % frame.f_code.co_name
+                self.pause(me, 'ready')
             return local
 
         def glob(frame, event, arg):
             if event == 'call' and frame.f_code.co_filename == fname:
+                self.depth[me] += 1
                 return local
             return None
         return glob
@@ -256,27 +272,44 @@ def _state(b):
             'buffer': _canon(b._buffer)}
 
 
+def _data(lo, n, ch):
+    x = np.arange(lo, lo + n, dtype=float)
+    return x if ch == 1 else np.stack([x + 1000 * r for r in range(ch)])
+
+
+def _arg(a):
+    """argument kinds: ['i64', 5] -> np.int64(5), ['f64', 2.0] -> np.float64(2.0); everything else as is"""
+    if isinstance(a, list) and len(a) == 2 and a[0] == 'i64':
+        return np.int64(a[1])
+    if isinstance(a, list) and len(a) == 2 and a[0] == 'f64':
+        return np.float64(a[1])
+    return a
+
+
 def _make(scn):
     SB = _buffer_cls()
-    b = SB(1.0, scn['cap'], fill_value=-1.0)
+    ch = scn.get('ch', 1)
+    b = SB(1.0, scn['cap'], fill_value=-1.0, n_channels=(None if ch == 1 else ch))
     pos = 0
     for n in scn['init']:
-        b.append_data(np.arange(pos + 1, pos + n + 1, dtype=float))
+        b.append_data(_data(pos + 1, n, ch))
         pos += n
+    for op in scn.get('post', []):
+        _call(b, op, ch)
     return b
 
 
-def _call(b, op):
-    name, args = op[0], op[1:]
+def _call(b, op, ch=1):
+    name, args = op[0], [_arg(a) for a in op[1:]]
     if name == 'append_data':
         lo, n = args
-        return b.append_data(np.arange(lo, lo + n, dtype=float))
+        return b.append_data(_data(lo, n, ch))
     return getattr(b, name)(*args)
 
 
 def _do(b, op):
     try:
-        return ['ok', _canon(_call(b, op))]
+        return ['ok', _canon(_call(b, op, 1 if b._n_channels is None else b._n_channels))]
     except (IndexError, ValueError) as e:
         return ['exc', type(e).__name__]
     except Exception as e:                         # anything else is itself a symptom of a torn state
@@ -344,6 +377,9 @@ def _run(scn, prefix):
         for t in th:
             t.join(5)
         out = {'w': res[0], 'r': res[1], 'final': _state(b)}
+        # the same outcome with each result taken at the moment the operation returned it
+        out['at_return'] = [ctl.ret_snap[t] if (ctl.ret_snap[t] is not None and res[t][0] == 'ok') else res[t]
+                            for t in (0, 1)]
     out['blocked'] = ctl.blocked_on_lock
     return out, trace
 
@@ -360,24 +396,41 @@ def _judge(out, serial):
             f'final {serial[1]["final"]}')
 
 
+VIEW_KEY = 'read-returns-view-of-buffer'
+
+
+def _judge_view(out, serial):
+    """True iff the outcome is torn ONLY because a returned ndarray view of _buffer was changed in place after the
+    operation had returned it (with the values taken at the moment of return the outcome is serial)."""
+    if 'deadlock' in out or 'at_return' not in out:
+        return False
+    alt = dict(out, w=out['at_return'][0], r=out['at_return'][1])
+    return _judge(out, serial) is not None and _judge(alt, serial) is None
+
+
 def _explore(scn, bound, deadline=None, stop_at_first=True):
     """All schedules with <= bound pre-emptions (the first choice is free).  -> dict"""
     serial = _serial(scn)
     stack = [([0], 0), ([1], 0)]
-    n, torn, matched, blocked = 0, [], set(), 0
+    n, torn, matched, blocked, view = 0, [], set(), 0, []
     while stack:
         if deadline is not None and time.time() > deadline:
-            return {'explored': n, 'torn': torn, 'complete': False, 'serial_seen': sorted(matched), 'blocked': blocked}
+            return {'explored': n, 'torn': torn, 'view_torn': view, 'complete': False, 'serial_seen': sorted(matched),
+                    'blocked': blocked}
         prefix, used = stack.pop()
         out, trace = _run(scn, prefix)
         n += 1
         blocked += 1 if out.get('blocked') else 0
         msg = _judge(out, serial)
         choices = [t for t, _, _ in trace]
-        if msg:
+        if msg and _judge_view(out, serial):
+            if not view:
+                view.append({'schedule': choices, 'trace': _fmt(trace), 'why': msg})
+        elif msg:
             torn.append({'schedule': choices, 'trace': _fmt(trace), 'why': msg})
             if stop_at_first:
-                return {'explored': n, 'torn': torn, 'complete': False, 'serial_seen': sorted(matched), 'blocked': blocked}
+                return {'explored': n, 'torn': torn, 'view_torn': view, 'complete': False,
+                        'serial_seen': sorted(matched), 'blocked': blocked}
         else:
             for k, s in enumerate(serial):
                 if out['r'] == s['r'] and out['final'] == s['final']:
@@ -388,7 +441,8 @@ def _explore(scn, bound, deadline=None, stop_at_first=True):
                 # pre-empt the running thread at step j (only where it would have continued and the other can run)
                 if both and j > 0 and trace[j - 1][0] == t:
                     stack.append((choices[:j] + [1 - t], used + 1))
-    return {'explored': n, 'torn': torn, 'complete': True, 'serial_seen': sorted(matched), 'blocked': blocked}
+    return {'explored': n, 'torn': torn, 'view_torn': view, 'complete': True, 'serial_seen': sorted(matched),
+            'blocked': blocked}
 
 
 def _fmt(trace):
@@ -403,28 +457,65 @@ def _fmt(trace):
     return ' | '.join(f'{n}: ' + ' '.join(w) for n, w in out)
 
 
-# two initial states: full ring (cap 4 after 6 samples, _ilb = 0) and partly filled ring (cap 6 after 3, _ilb = 3)
-STATES = {'full': {'cap': 4, 'init': [3, 3]}, 'part': {'cap': 6, 'init': [3]}}
+# initial states (fs = 1, so seconds == samples): empty; partly filled ring (_ilb > 0); full ring (_ilb = 0, wrapped);
+# just invalidated (full, then cut back by one sample: _ilb = 1, NaN hole); two channels; resized (grown, _ilb > 0)
+STATES = {
+    'empty': {'cap': 4, 'init': []},
+    'part': {'cap': 6, 'init': [3]},
+    'full': {'cap': 4, 'init': [3, 3]},
+    'inval': {'cap': 4, 'init': [3, 3], 'post': [['invalidate_samples', 5]]},
+    'multi': {'cap': 4, 'init': [3, 3], 'ch': 2},
+    'resized': {'cap': 4, 'init': [3, 3], 'post': [['resize', 7]]},
+}
+_GEOM = {}
+
+
+def _geom(st):
+    """(lower bound, upper bound, capacity) of a state, measured on the real object"""
+    if st not in _GEOM:
+        b = _make(STATES[st])
+        _GEOM[st] = (int(b.get_samples_lb()), int(b.get_samples_ub()), int(b._buffer_samples))
+    return _GEOM[st]
 
 
 def _writers(st):
-    n = sum(STATES[st]['init'])
-    return [['append_data', n + 1, 2], ['append_data', n + 1, STATES[st]['cap'] + 2], ['invalidate_samples', n - 1],
-            ['invalidate', float(n - 2)], ['resize', STATES[st]['cap'] + 3]]
+    lb, n, cap = _geom(st)
+    return [['append_data', n + 1, 1], ['append_data', n + 1, 2], ['append_data', n + 1, cap],
+            ['append_data', n + 1, cap + 2],
+            ['invalidate_samples', max(n - 1, 0)], ['invalidate_samples', lb], ['invalidate_samples', n],
+            ['invalidate', float(max(n - 2, 0))], ['invalidate', ['i64', max(n - 1, 0)]],
+            ['resize', cap + 3], ['resize', max(cap - 1, 1)]]
 
 
 def _readers(st):
-    n = sum(STATES[st]['init'])
-    return [['get_range_samples'], ['get_range_samples', n - 2, n], ['get_range'], ['get_range', float(n - 2), float(n)],
-            ['get_latest', -2.0], ['get_latest', -3.0, 0, -7.0], ['get_range_filled', float(n - 3), float(n + 1), -7.0],
+    lb, n, cap = _geom(st)
+    return [['get_range_samples'], ['get_range_samples', n - 2, n], ['get_range_samples', lb, None],
+            ['get_range_samples', None, ['i64', n - 1]],
+            ['get_range'], ['get_range', float(n - 2), float(n)], ['get_range', None, float(n)],
+            ['get_range', float(lb), None], ['get_range', n - 2, ['f64', float(n)]],
+            ['get_latest', -2.0], ['get_latest', -3.0, 0, -7.0], ['get_latest', -3.0, -1.0], ['get_latest', -2, 0, 0.0],
+            ['get_range_filled', float(n - 3), float(n + 1), -7.0], ['get_range_filled', n + 1, n + 3, 0.0],
             ['get_samples_lb'], ['get_samples_ub'], ['get_time_lb'], ['get_time_ub']]
 
 
+def _scn(st, w, r):
+    return dict(STATES[st], w=w, r=r, state=st)
+
+
 def _pairs():
-    for st in STATES:
-        for w in _writers(st):
-            for r in _readers(st):
-                yield {'cap': STATES[st]['cap'], 'init': STATES[st]['init'], 'w': w, 'r': r}
+    """(index triple, scenario) for every state x writer x reader"""
+    for si, st in enumerate(STATES):
+        for wi, w in enumerate(_writers(st)):
+            for ri, r in enumerate(_readers(st)):
+                yield (si, wi, ri), _scn(st, w, r)
+
+
+def _ww_pairs():
+    """writer x writer (the final state must equal one of the two serial orders)"""
+    for st in ('full', 'part', 'multi'):
+        ws = _writers(st)
+        for a, b in ((1, 4), (1, 9), (7, 9), (3, 5), (4, 10)):
+            yield _scn(st, ws[a], ws[b])
 
 
 # ----------------------------------------------------------------------------------------------------
@@ -433,13 +524,28 @@ def cases(tier, rng):
     for name in info['methods']:
         yield {'k': 'method', 'name': name}
     yield {'k': 'mutable'}
+    yield {'k': 'retalias'}
     if tier == 'quick':
-        for i, scn in enumerate(_pairs()):
-            if i % 3 == 0:
-                yield dict(scn, k='explore', bound=1)
+        # a covering selection (about 1/19 of all pairs): every state, every writer and every reader variant (argument
+        # kinds included) several times, and every writer METHOD x reader METHOD combination at least once
+        sel, combos = [], set()
+        for (si, wi, ri), scn in _pairs():
+            if (6 * wi + 8 * ri + si) % 19 == 0:
+                sel.append(scn)
+                combos.add((scn['w'][0], scn['r'][0]))
+        for (si, wi, ri), scn in _pairs():
+            if scn['state'] == 'full' and (scn['w'][0], scn['r'][0]) not in combos:
+                sel.append(scn)
+                combos.add((scn['w'][0], scn['r'][0]))
+        for scn in sel:
+            yield dict(scn, k='explore', bound=1)
     else:
-        for i, scn in enumerate(_pairs()):
-            yield dict(scn, k='explore', bound=(3 if i % 11 == 0 else 2))
+        for (si, wi, ri), scn in _pairs():
+            i = (si * 11 + wi) * 19 + ri
+            yield dict(scn, k='explore', bound=(3 if i % 57 == 0 else 2 if i % 4 == 0 else 1))
+    if tier != 'quick':
+        for scn in _ww_pairs():
+            yield dict(scn, k='explore', bound=2)
 
 
 _OBS = None
@@ -462,9 +568,28 @@ def impl(case):
         if _OBS is None:
             _OBS = _observe()
         return {'changed': sorted(_OBS[1])}
+    if k == 'retalias':
+        # static: operations whose return value may reference a mutable field; dynamic: reads that really hand out
+        # memory shared with the buffer
+        info = _info()
+        mut = set(info['mutable_fields'])
+        static = {m: sorted(set(f) & mut) for m, f in info['returns_alias'].items()
+                  if set(f) & mut and not m.startswith('_')}
+        dyn = []
+        for st in STATES:
+            for r in _readers(st):
+                b = _make(STATES[st])
+                try:
+                    v = _call(b, r, STATES[st].get('ch', 1))
+                except (IndexError, ValueError):
+                    continue
+                if isinstance(v, np.ndarray) and v.size and np.shares_memory(v, b._buffer):
+                    dyn.append([st, r])
+        return {'static': static, 'dynamic': dyn[:5], 'n_dynamic': len(dyn)}
     if k == 'explore':
         r = _explore(case, case['bound'])
         r['torn'] = r['torn'][:1]
+        r['view_torn'] = r.get('view_torn', [])[:1]
         return r
     if k == 'sched':
         out, trace = _run(case, case['schedule'])
@@ -479,7 +604,9 @@ def term(case, res):
             return 'false'
         bc, ob = res['bytecode'], res['observed']
         n = '"%s"' % case['name']
-        return (f'check_method generated_methods {n} {_slist(bc["touched"])} {_slist(bc["stores"])} {_slist(bc["calls"])}'
+        extra = _info()['alias_extra'].get(case['name'], [])
+        return (f'check_method2 generated_methods {n} {_slist(bc["touched"])} {_slist(extra)} {_slist(bc["stores"])} '
+                f'{_slist(bc["calls"])}'
                 f' && check_observed generated_methods {n} {_slist(ob["r"])} {_slist(ob["w"])} {_slist(ob["c"])}')
     if k == 'mutable':
         return f'subset {_slist(res["changed"])} (mutable_fields generated_methods)'
@@ -488,14 +615,30 @@ def term(case, res):
 
 def oracle(case, res):
     k = case['k']
+    if k == 'retalias':
+        if res['n_dynamic']:
+            return (f'{res["n_dynamic"]} reads return an ndarray that shares memory with the ring buffer (first: '
+                    f'{res["dynamic"][0]}): the caller reads the buffer with no lock held after the operation returned')
+        if res['static']:
+            return (f'the value returned by {sorted(res["static"])} may reference the mutable field(s) '
+                    f'{sorted({f for v in res["static"].values() for f in v})} (translator alias analysis): the caller would read them '
+                    f'with no lock held')
+        return None
     if k == 'explore':
         if res['torn']:
             t = res['torn'][0]
             return f'torn outcome under schedule {t["trace"]}: {t["why"]}'
+        if res.get('view_torn'):
+            t = res['view_torn'][0]
+            return (f'the read returned a VIEW of the buffer, changed in place by the writer after the read had released the '
+                    f'lock and before the caller received the value; schedule {t["trace"]}: {t["why"]}')
         return None
     if k == 'sched':
-        return _judge(res['outcome'], res['serial']) and \
-            f'torn outcome under schedule {res["trace"]}: {_judge(res["outcome"], res["serial"])}'
+        m = _judge(res['outcome'], res['serial'])
+        if m and _judge_view(res['outcome'], res['serial']):
+            return (f'the read returned a VIEW of the buffer, changed in place by the writer after the read had released the '
+                    f'lock and before the caller received the value; schedule {res["trace"]}: {m}')
+        return m and f'torn outcome under schedule {res["trace"]}: {m}'
     return None
 
 
@@ -505,12 +648,25 @@ def nontrivial(case, res):
         return bool(not res.get('missing') and (res['bytecode']['touched'] or res['bytecode']['calls']))
     if k == 'mutable':
         return bool(res['changed'])
+    if k == 'retalias':
+        return True
     if k == 'explore':
         return res['explored'] > 2 and (res['blocked'] > 0 or len(res['serial_seen']) == 2)
     return True
 
 
 def key(case, res):
+    """known-finding key: the outcome is torn only through a returned view (see VIEW_KEY)"""
+    k = case.get('k')
+    if k == 'explore' and res is not None and not res['torn'] and res.get('view_torn'):
+        return VIEW_KEY
+    if k == 'retalias' and res is not None and (res['n_dynamic'] or res['static']):
+        return VIEW_KEY
+    if k == 'sched':
+        if res is None:
+            res = impl(case)
+        if _judge_view(res['outcome'], res['serial']):
+            return VIEW_KEY
     return None
 
 
@@ -563,11 +719,11 @@ def search(tier, rng):
     t0 = time.time()
     found = []
     failing = _failing_ops()
-    pairs = list(_pairs())
+    pairs = [scn for _, scn in _pairs()]
     for w in _extra_writers(failing):
         for st in STATES:
             for r in _readers(st):
-                pairs.append({'cap': STATES[st]['cap'], 'init': STATES[st]['init'], 'w': w, 'r': r})
+                pairs.append(_scn(st, w, r))
     pairs.sort(key=lambda p: -((p['w'][0] in failing) + (p['r'][0] in failing)))
     for bound in ((1, 2) if tier == 'quick' else (1, 2, 3)):
         for scn in pairs:
@@ -582,4 +738,4 @@ def search(tier, rng):
                 found.append((case, f'torn outcome under schedule {t["trace"]}: {t["why"]}'))
         if found:
             return found
-    return found
+    return found        # torn-through-a-returned-view outcomes are reported by the explore cases themselves
